@@ -34,6 +34,8 @@ pub enum GOp {
     Poll { c: usize, count: u32 },
     /// every joined member polls at the same time
     PollBurst { count: u32 },
+    /// the single member of a second group on the same topic polls (its cursor and its share are its own)
+    BystanderPoll { count: u32 },
 }
 
 impl GOp {
@@ -48,6 +50,7 @@ impl GOp {
             GOp::Send { .. } => "send",
             GOp::Poll { .. } => "poll",
             GOp::PollBurst { .. } => "poll_burst",
+            GOp::BystanderPoll { .. } => "bystander_poll",
         }
     }
 }
@@ -77,6 +80,14 @@ pub struct GWorld {
     opsk: BTreeMap<String, u64>,
     shape: Vec<&'static str>,
     seq: u64,
+    /// a second group ("bystanders", id 2) with one member of its own
+    by: Option<RawClient>,
+    by_id: u32,
+    delivered2: BTreeMap<u32, u64>,
+}
+
+fn two() -> Identifier {
+    Identifier::numeric(2).unwrap()
 }
 
 fn one() -> Identifier {
@@ -172,6 +183,59 @@ impl GWorld {
         for m in self.members.iter_mut() {
             m.walk.clear();
         }
+        // the other group on the same topic is not disturbed by any of this: one member, all partitions
+        if self.by.is_some() {
+            self.eval("C08:exclusive-and-complete");
+            let g2 = match timed("get_group", self.ctl.get_consumer_group(&one(), &one(), &two())).await? {
+                Ok(Some(g)) => g,
+                other => return Err(Stop::Inconclusive(format!("get_consumer_group 2: {other:?}"))),
+            };
+            let mut owned: Vec<u32> = g2.members.iter().flat_map(|m| m.partitions.clone()).collect();
+            owned.sort();
+            let want: Vec<u32> = (1..=self.parts).collect();
+            if g2.members.len() != 1 || g2.members[0].id != self.by_id || g2.members_count != 1 || g2.partitions_count != self.parts || owned != want {
+                let d = json!({"why": why, "second_group": {"members": g2.members.iter().map(|m| (m.id, m.partitions.clone())).collect::<Vec<_>>(), "members_count": g2.members_count, "partitions_count": g2.partitions_count},
+                    "expected_member": self.by_id, "topic_partitions": self.parts});
+                return Err(gv(self, "exclusive-and-complete", "second-group-disturbed", d));
+            }
+        }
+        Ok(())
+    }
+
+    /// the second group's only member polls: served from any partition, strictly after what that group was handed before
+    async fn bystander_poll(&mut self, count: u32) -> R<()> {
+        let Some(by) = self.by.as_ref() else { return Ok(()) };
+        let who = Consumer::group(two());
+        let r = timed("poll", by.poll_messages(&one(), &one(), None, &who, &PollingStrategy::next(), count, true)).await?;
+        let pm = match r {
+            Ok(p) => p,
+            Err(e) => return Err(gv(self, "valid-refused", "poll", json!({"second_group": true, "error": e.to_string()}))),
+        };
+        self.eval("C08:exactly-once-in-order");
+        let p = pm.partition_id;
+        if p == 0 || p > self.parts {
+            return Err(gv(self, "served-from-own-share", "second-group-foreign-partition", json!({"served_partition": p, "partitions": self.parts})));
+        }
+        let next = *self.delivered2.get(&p).unwrap_or(&0);
+        let sent = self.sent.get(&p).cloned().unwrap_or_default();
+        let offs: Vec<u64> = pm.messages.iter().map(|m| m.offset).collect();
+        let want_n = (sent.len() as u64 - next.min(sent.len() as u64)).min(count as u64);
+        let want: Vec<u64> = (next..next + want_n).collect();
+        if offs != want {
+            let d = json!({"second_group": true, "partition": p, "group_already_handed": next, "sent": sent.len(), "expected_offsets": crate::world::compress(&want), "got_offsets": crate::world::compress(&offs),
+                "first_group_handed": self.delivered.get(&p)});
+            let trig = if offs.first().map(|o| *o < next).unwrap_or(false) { "second-group-delivered-twice" } else { "second-group-skipped-or-short" };
+            return Err(gv(self, "exactly-once-in-order", trig, d));
+        }
+        for (m, off) in pm.messages.iter().zip(want.iter()) {
+            if m.payload != sent[*off as usize] {
+                return Err(gv(self, "exactly-once-in-order", "wrong-content", json!({"second_group": true, "partition": p, "offset": off})));
+            }
+        }
+        if !offs.is_empty() {
+            self.delivered2.insert(p, next + offs.len() as u64);
+            self.event("messages_delivered_to_second_group");
+        }
         Ok(())
     }
 
@@ -246,6 +310,7 @@ impl GWorld {
                 for p in self.parts + 1..=self.parts + n {
                     self.sent.insert(p, vec![]);
                     self.delivered.insert(p, 0);
+                    self.delivered2.insert(p, 0);
                 }
                 self.parts += n;
                 self.event("partitions_created");
@@ -264,6 +329,7 @@ impl GWorld {
                 for p in (self.parts - n + 1)..=self.parts {
                     self.sent.remove(&p);
                     self.delivered.remove(&p);
+                    self.delivered2.remove(&p);
                 }
                 self.parts -= n;
                 self.event("partitions_deleted");
@@ -289,6 +355,7 @@ impl GWorld {
             }
             GOp::Poll { c, count } => self.poll(c, count).await,
             GOp::PollBurst { count } => self.poll_burst(count).await,
+            GOp::BystanderPoll { count } => self.bystander_poll(count).await,
         }
     }
 
@@ -420,7 +487,7 @@ impl GWorld {
 fn gen(w: &GWorld, rng: &mut Rng) -> GOp {
     let m = w.members.len();
     let c = rng.below(m as u64) as usize;
-    match rng.weighted(&[14, 6, 5, 5, 4, 4, 20, 36, 8]) {
+    match rng.weighted(&[14, 6, 5, 5, 4, 4, 20, 32, 8, 6]) {
         0 => GOp::Join { c },
         1 => GOp::Leave { c },
         2 => GOp::Disconnect { c },
@@ -429,7 +496,8 @@ fn gen(w: &GWorld, rng: &mut Rng) -> GOp {
         5 => GOp::DeletePartitions { n: rng.range(1, 3) as u32 },
         6 => GOp::Send { part: rng.range(1, 10) as u32, n: rng.range(1, 6) as u32 },
         7 => GOp::Poll { c, count: *rng.pick(&[1u32, 1, 2, 3, 10]) },
-        _ => GOp::PollBurst { count: *rng.pick(&[1u32, 2, 3, 10]) },
+        8 => GOp::PollBurst { count: *rng.pick(&[1u32, 2, 3, 10]) },
+        _ => GOp::BystanderPoll { count: *rng.pick(&[1u32, 2, 5, 10]) },
     }
 }
 
@@ -465,6 +533,9 @@ async fn history(hseed: u64, cache: CacheMode, replay_ops: Option<(u32, usize, V
         opsk: BTreeMap::new(),
         shape: vec![],
         seq: 0,
+        by: None,
+        by_id: 0,
+        delivered2: (1..=parts).map(|p| (p, 0)).collect(),
     };
     let res: R<()> = async {
         timed("login", w.ctl.login_user("iggy", "iggy")).await?.map_err(|e| Stop::Inconclusive(e.to_string()))?;
@@ -476,6 +547,12 @@ async fn history(hseed: u64, cache: CacheMode, replay_ops: Option<(u32, usize, V
         for c in 0..nmem {
             w.connect_member(c).await?;
         }
+        timed("create_group", w.ctl.create_consumer_group(&one(), &one(), "bystanders", Some(2))).await?.map_err(|e| Stop::Inconclusive(e.to_string()))?;
+        let by = RawClient::connect(w.inst.tcp_addr).await.map_err(Stop::Inconclusive)?;
+        timed("login", by.login_user("iggy", "iggy")).await?.map_err(|e| Stop::Inconclusive(e.to_string()))?;
+        w.by_id = timed("get_me", by.get_me()).await?.map_err(|e| Stop::Inconclusive(e.to_string()))?.client_id;
+        timed("join", by.join_consumer_group(&one(), &one(), &two())).await?.map_err(|e| Stop::Inconclusive(e.to_string()))?;
+        w.by = Some(by);
         match replay_ops {
             Some((_, _, ops)) => {
                 for op in ops {
